@@ -159,6 +159,12 @@ theorem HB.fence_seen_mono (h : HB) (t : Nat) (o : Ord) (u i : Nat) (hs : h.seen
 @[simp] theorem HB.fence_msg (h : HB) (t : Nat) (o : Ord) : (h.fence t o).msg = h.msg := rfl
 theorem HB.fence_relv_other (h : HB) (t : Nat) (o : Ord) {u : Nat} (hu : u ≠ t) : (h.fence t o).relv u = h.relv u := by
   simp [HB.fence, upd_other _ _ hu]
+theorem HB.fence_relv_self (h : HB) (t : Nat) (o : Ord) (i : Nat) (hr : h.relv t i = true)
+    (hsub : h.relv t i = true → h.seen t i = true) : (h.fence t o).relv t i = true := by
+  simp only [HB.fence, upd_same]
+  split
+  · split <;> simp [hsub hr]
+  · exact hr
 /-- an acquiring fence turns pending knowledge into knowledge -/
 theorem HB.fence_acquires (h : HB) (t : Nat) (o : Ord) (ho : o.acquires = true) (i : Nat) (ha : h.acqp t i = true) :
     (h.fence t o).seen t i = true := by
